@@ -746,8 +746,12 @@ fn step_data(st: St, mode: u8, class: u8, ob_id: u8) {
             
         }
         _ => {
-            assert!(o.n_err == 0, "first CDW of a link reported");
-            
+            if st == St::Data {
+                assert!(o.n_err == 0, "first CDW of a link reported");
+            } else {
+                // a CDW is legal only at the start of the payload's data; later its id is not a data word id
+                assert!(o.any_at(b"[E70]", wpos), "CDW identifier after data words not reported as [E70] at the word");
+            }
         }
     }
     // reachability witnesses (phrased so that each instance can satisfy all of them)
@@ -901,5 +905,45 @@ fn trigger_period(internal: bool) {
     }
     kani::cover!(!internal || expect, "period mismatch / not compared");
     kani::cover!(!internal || (!expect && cbc < pbc), "match across the orbit wrap");
+    core::mem::forget(c);
+}
+
+// =============================================================================================
+// C04 (stave mode): lane data that arrives while no readout frame is open (the first TDH of the
+// link has continuation = 1) is dropped without a panic, and the closing TDT reports [E59]
+// =============================================================================================
+//@ harness: step_stave_orphan_data props=C04,C02 tier=quick class=functional covers=1 mem=12 timeout=900 est=60
+//@ bounds: check all its-stave, first packet of a link: IHW, TDH with continuation = 1 (no frame start), an inner-barrel data word with arbitrary data bytes, TDT packet_done: no panic; the TDH is reported ([E4x]) and the TDT reports [E59] at its offset (packet offset < 2^40, data format {0,2})
+#[kani::proof]
+#[kani::unwind(4)]
+#[kani::stub(alloc::fmt::format, crate::vsup::stub_format)]
+#[kani::stub(core::fmt::write, crate::vsup::stub_write)]
+#[kani::stub(flume::Sender::send, crate::vsup::stub_send)]
+#[kani::stub(crate::analyze::validators::its::util::report_error, crate::vsup::stub_report_error_fp)]
+fn step_stave_orphan_data() {
+    let mut c = Ctx::new(&crate::vsup::VCFG_ALL_STAVE);
+    let rdh = conc_rdh(0, 0);
+    let pos = any_pos();
+    c.set_rdh(&rdh, pos);
+    c.feed(&W_IHW);
+    let mut f = tdh_conf();
+    f.cont = true;
+    crate::vsup::reset();
+    c.feed(&tdh_w(&f));
+    let o1 = c.obs();
+    assert!(o1.any(b"[E4"), "first TDH of a link with continuation = 1 not reported");
+    let mut w: [u8; 10] = kani::any();
+    w[9] = 0x25;
+    c.feed(&w); // must not panic: there is no open frame to store the lane data in
+    crate::vsup::reset();
+    #[cfg(feature = "verif_native")]
+    {
+        let _ = c.obs();
+    }
+    let tpos = c.next_word_pos();
+    c.feed(&w_tdt(true));
+    let o2 = c.obs();
+    assert!(o2.any_at(b"[E59]", tpos), "TDT closing a frame that was never opened must report [E59] at its offset");
+    kani::cover!(w[0] == 0xA5, "arbitrary lane data");
     core::mem::forget(c);
 }
